@@ -269,6 +269,10 @@ func (its *document) PutToObject(key string, value interface{}) (Document, error
 	if err := its.assertLocalOp("PutToObject", TypeJSONObject, false); err != nil {
 		return nil, err
 	}
+	value, nErr := its.normalizeValue(value)
+	if nErr != nil {
+		return nil, nErr
+	}
 	op := operations.NewDocPutInObjOperation(its.snapshot().getCreateTime(), key, value)
 	removed, err := its.SentenceInTx(its.TxCtx, op, true)
 	if err != nil {
@@ -337,6 +341,10 @@ func (its *document) InsertToArray(pos int, values ...interface{}) (Document, er
 	if err := arr.validateInsertPosition(pos); err != nil {
 		return its, err
 	}
+	values, nErr := its.normalizeValues(values)
+	if nErr != nil {
+		return its, nErr
+	}
 	op := operations.NewDocInsertToArrayOperation(its.snapshot().getCreateTime(), pos, values)
 	if _, err := its.SentenceInTx(its.TxCtx, op, true); err != nil {
 		return its, err
@@ -381,6 +389,10 @@ func (its *document) UpdateManyInArray(pos int, values ...interface{}) ([]Docume
 	arr := its.snapshot().(*jsonArray)
 	if err := arr.validateGetRange(pos, len(values)); err != nil {
 		return nil, err
+	}
+	values, nErr := its.normalizeValues(values)
+	if nErr != nil {
+		return nil, nErr
 	}
 	op := operations.NewDocUpdateInArrayOperation(its.snapshot().getCreateTime(), pos, values)
 	oldOnes, err := its.SentenceInTx(its.TxCtx, op, true)
@@ -440,4 +452,55 @@ func (its *document) assertLocalOp(opName string, ofJSON TypeOfJSON, workOnGarba
 		return errors.DatatypeNoOp.New(its.L(), "already deleted from the root Document")
 	}
 	return nil
+}
+
+// normalizeValue brings a value to the form in which every other replica receives it
+// (its JSON encoding decoded again) before an operation is built from it, so that the
+// issuing replica builds exactly the same nodes and identities as the others.
+// A value that cannot be encoded, or that contains null, is refused.
+func (its *document) normalizeValue(value interface{}) (interface{}, errors.OrdaError) {
+	encoded, err := json.Marshal(value)
+	if err != nil {
+		return nil, errors.DatatypeIllegalParameters.New(its.L(), err.Error())
+	}
+	var normalized interface{}
+	if err := json.Unmarshal(encoded, &normalized); err != nil {
+		return nil, errors.DatatypeIllegalParameters.New(its.L(), err.Error())
+	}
+	if containsNull(normalized) {
+		return nil, errors.DatatypeIllegalParameters.New(its.L(), "null value is not allowed")
+	}
+	return normalized, nil
+}
+
+func (its *document) normalizeValues(values []interface{}) ([]interface{}, errors.OrdaError) {
+	normalized := make([]interface{}, 0, len(values))
+	for _, value := range values {
+		n, err := its.normalizeValue(value)
+		if err != nil {
+			return nil, err
+		}
+		normalized = append(normalized, n)
+	}
+	return normalized, nil
+}
+
+func containsNull(value interface{}) bool {
+	switch cast := value.(type) {
+	case nil:
+		return true
+	case map[string]interface{}:
+		for _, v := range cast {
+			if containsNull(v) {
+				return true
+			}
+		}
+	case []interface{}:
+		for _, v := range cast {
+			if containsNull(v) {
+				return true
+			}
+		}
+	}
+	return false
 }
